@@ -580,6 +580,11 @@ func finalizeOutboundListeners(lb *ListenerBuilder, listenerMap map[listenerKey]
 		l := buildListenerFromEntry(lb, le, fallthroughNetworkFilters)
 		listeners = append(listeners, l)
 	}
+	// listenerMap is a map: without sorting, the order of the outbound listeners in the response would
+	// change from one generation to the next for identical inputs.
+	sort.SliceStable(listeners, func(i, j int) bool {
+		return listeners[i].Name < listeners[j].Name
+	})
 	return listeners
 }
 
